@@ -611,13 +611,13 @@ def sum_point_update(u, A, oA, Bt, oB, p):
         return
     oA = tuple(oA) if isinstance(oA, (tuple, list)) else (oA,)
     oB = tuple(oB) if isinstance(oB, (tuple, list)) else (oB,)
-    n = zint(rA.ns[0])
+    n = zint(rA.length(oA))
     k = z3.Int(f"kpu_{next(u.ctx.fresh_ids)}")
     agree = z3.ForAll([k], z3.Implies(z3.And(k >= 0, k < n, k != zint(p)), rA.body(oA, (k,)) == rB.body(oB, (k,))))
     concl = z3.If(z3.And(zint(p) >= 0, zint(p) < n),
                   rA.app(oA) - rB.app(oB) == rA.body(oA, (zint(p),)) - rB.body(oB, (zint(p),)),
                   rA.app(oA) == rB.app(oB))
-    u.ctx.assume(z3.Implies(z3.And(n == zint(rB.ns[0]), agree), concl))
+    u.ctx.assume(z3.Implies(z3.And(n == zint(rB.length(oB)), agree), concl))
 
 
 def sum_split_last(u, A, oA, Bt, oB):
